@@ -2045,7 +2045,6 @@ TARGETS = [
     T('mul_high', ('BigInt', 'mul_high'), [SELF_A, OTHER_B], ['ret'], 'list Z', Ns=(1, 2, 3, 4, 6)),
     T('const_geq', ('BigInt', 'const_geq'), [SELF_A, OTHER_B], ['ret'], 'bool', Ns=NA),
     T('const_sub_with_borrow', ('BigInt', 'const_sub_with_borrow'), [SELF_A, OTHER_B], ['ret'], 'list Z * bool', Ns=NA),
-    T('const_add_with_carry', ('BigInt', 'const_add_with_carry'), [SELF_A, OTHER_B], ['ret'], 'list Z * bool', Ns=NA),
     T('const_mul2_with_carry', ('BigInt', 'const_mul2_with_carry'), [SELF_A], ['ret'], 'list Z * bool', Ns=NA),
     T('const_shr', ('BigInt', 'const_shr'), [SELF_A], ['ret'], 'list Z', Ns=NA),
     T('const_is_zero', ('BigInt', 'const_is_zero'), [SELF_A], ['ret'], 'bool', Ns=NA),
